@@ -5,7 +5,7 @@ string; the real pipeline generates the certificate, with and without a subject-
 TLC decodes it and compares with Names!ExpectedRDNs (reverse order, one single-valued RDN per pair,
 UTF-8 bytes unchanged, PrintableString or UTF8String), the configured serial / unique ids, and checks
 that unconfigured serials are pairwise distinct."""
-import json, random
+import re, json, random
 from .certgen import *
 from . import genjudge
 
@@ -57,7 +57,8 @@ def mk(cid, attrs, serial=None, iuid=None, suid=None, profile="none", blanks=Tru
         c["profile"] = "prof"
     files.append(("e.yaml", json.dumps(c, ensure_ascii=False)))
     tag = {"prop": "C03", "ent": "e", "class": klass,
-           "attrs": [{"name": k if isinstance(k, str) else "", "oid": [] if isinstance(k, str) else k, "v": [ord(ch) for ch in v]} for k, v in attrs],
+           "attrs": [{"name": k if isinstance(k, str) else "", "oid": [] if isinstance(k, str) else k, "v": [ord(ch) for ch in v],
+                      "bin": bool(re.fullmatch(r"#[0-9a-fA-F]+", v))} for k, v in attrs],
            "serial": serial_bytes(serial) if serial is not None else [],
            "iuid": {"present": iuid is not None, "bytes": list(iuid or b"")}, "suid": {"present": suid is not None, "bytes": list(suid or b"")}}
     return case(cid, [(p, t if isinstance(t, str) else json.dumps(t)) for p, t in files], tag=tag)
@@ -105,6 +106,15 @@ def cases(ctx):
         add(four, profile="allowother", pick=pick, klass="order/allowother")
         add(four[::-1], profile="allowother", pick=pick, klass="order/allowother")
         add(four, profile="optionals", pick=pick, klass="order/optionals")
+    # one pair of the subject written in binary (`#` + hex digits of a DER value: a string type gopki does not pick itself, or no string
+    # at all) at every place of the subject: the other pairs keep their place, type and text, and so does the RDN of the binary pair
+    # (type and place; its octets are not judged here)
+    for hexv in ("#0c0442696e61", "#a1b2c3d4", "#1e0400420069", "#040142", "#160378797a"):
+        for ln in (2, 3, 4, 5):
+            base = [("C", "DE"), ("O", "Acme"), ("OU", "Devices"), ("CN", "Device 7"), ("L", "Ulm")][:ln - 1]
+            for pos in range(ln):
+                for key in (("OU" if ln < 4 else "ST"), [1, 3, 6, 1, 4, 1, 99999, 1]):
+                    add(base[:pos] + [(key, hexv)] + base[pos:], klass="binary-pair/%d-of-%d" % (pos + 1, ln), blanks=(pos % 2 == 0))
     # serials and unique ids
     for s in [0, 1, 127, 128, 255, 256, 2 ** 31, 2 ** 63 - 1] + [r.randrange(1, 2 ** 63) for _ in range(6)]:
         add([("CN", "serial")], serial=s, klass="serial")
